@@ -69,6 +69,19 @@ def experiments():
     def c_meta(t):
         t["events"][1]["sums"][0] += 1
     ex += [("JMeta", {"C18"}, m, c_meta, "a scaled sum off by one", "")]
+    # JScan: C19 request histories
+    sc = drive.run_scan({"vals": [9, 1, 1, 1], "Cs": [12, 10, 8, 7], "alg": "bc", "fmt": "list", "ot": "Sums"})
+    def c_scan(t):
+        t["events"][2]["out"] = "ret"          # the oversize request (bin size 8 < 9) recorded as answered
+    def c_scan2(t):
+        t["events"][3]["out"] = "raise:IndexError"
+    ex += [("JScan", {"C19"}, sc, c_scan, "an oversize request recorded as answered after satisfiable ones", ""),
+           ("JScan", {"C19"}, sc, c_scan2, "an oversize request recorded as failing with another exception", "")]
+    # common-factor presentation: the library sees values x 1e8 as an int32 array, the judge the small numbers
+    g = drive.run_pack_group({"vals": [16, 12, 12, 7, 7], "C": 30, "mul": 10 ** 8, "orc": 0, "calls": [pcall("tq", "list", extra=False), pcall("tq", "int32array", extra=False)]})
+    def c_g(t):
+        t["res"][1]["sums"][0] -= 1
+    ex += [("JPack", {"C07"}, g, c_g, "a sum of the int32-array presentation off by one unit of the common factor", "")]
     return ex
 
 
@@ -88,7 +101,7 @@ def main():
             print("%-8s %-22s original %s, corrupted (%s) %s%s" % (module, ",".join(sorted(active)), "accepted" if not f0 else "REJECTED " + f0[0]["c"], what,
                                                                    "rejected: " + f1[0]["c"] if f1 else "ACCEPTED", "" if ok else "   <== BINDING FAILURE"))
         # JSession separately (needs digests)
-        ev = [{"c": 1, "ret": "aa", "fresh": "aa", "fresh2": "aa", "before": "x", "after": "x"}, {"c": 2, "ret": "bb", "fresh": "bb", "fresh2": "bb", "before": "y", "after": "y"}]
+        ev = [{"c": 1, "ret": "aa", "fresh": "aa", "fresh2": "aa", "before": "x", "after": "x", "obj": "D"}, {"c": 2, "ret": "bb", "fresh": "bb", "fresh2": "bb", "before": "y", "after": "y", "obj": "D"}]
         ev2 = copy.deepcopy(ev); ev2[1]["ret"] = "cc"
         f0 = ck.judge("JSession", [{"events": ev}], {"C15"}); f1 = ck.judge("JSession", [{"events": ev2}], {"C15"})
         ok = (not f0) and bool(f1); bad += 0 if ok else 1
